@@ -227,7 +227,7 @@ func c04EndToEnd(c CaseC04) *hx.Failure {
 	}
 	// PTS/DTS through a PES header
 	for _, mode := range []int{2, 3} {
-		h := &ref.PES{Prefix: ref.Hex{0, 0, 1}, StreamID: 0xE0, PTSDTS: mode, PTS: c.PTS, DTS: c.DTS, Data: ref.Hex{1, 2, 3}}
+		h := &ref.PES{Prefix: ref.Hex{0, 0, 1}, StreamID: 0xE0, PTSDTS: mode, PTS: c.PTS, DTS: c.DTS, Stuffing: c.FlipDTS % 9, Data: ref.Hex{1, 2, 3}}
 		hb := h.Bytes()
 		// prefix code and marker bits of the two time fields are not value bits
 		for i, pos := range c04PTSNonValue {
@@ -247,6 +247,23 @@ func c04EndToEnd(c CaseC04) *hx.Failure {
 		}
 		if mode == 3 && (!ph.HasDTS() || ph.DTS() != c.DTS) {
 			return hx.Failf("e2e-pes-dts", "PES DTS = %d (HasDTS=%v), want %d (time field bytes %x)", ph.DTS(), ph.HasDTS(), c.DTS, hb[14:19])
+		}
+	}
+	// a header cut short by the packet payload (it continues in the next packet): a time field whose five bytes are there is read
+	{
+		h := &ref.PES{Prefix: ref.Hex{0, 0, 1}, StreamID: 0xC0, PTSDTS: 3, PTS: c.PTS, DTS: c.DTS, Stuffing: 1 + c.FlipPTS%12, Data: ref.Hex{9}}
+		hb := h.Bytes()
+		for k := 14; k <= len(hb); k++ {
+			ph, err := pes.NewPESHeader(hb[:k])
+			if err != nil {
+				return hx.Failf("e2e-pes-cut", "NewPESHeader failed on the first %d bytes of a PES packet start: %v", k, err)
+			}
+			if !ph.HasPTS() || ph.PTS() != c.PTS {
+				return hx.Failf("e2e-pes-cut-pts", "first %d of %d header bytes: PTS = %d (HasPTS=%v), want %d", k, len(hb)-1, ph.PTS(), ph.HasPTS(), c.PTS)
+			}
+			if k >= 19 && (!ph.HasDTS() || ph.DTS() != c.DTS) {
+				return hx.Failf("e2e-pes-cut-dts", "first %d of %d header bytes: DTS = %d (HasDTS=%v), want %d", k, len(hb)-1, ph.DTS(), ph.HasDTS(), c.DTS)
+			}
 		}
 	}
 	// WithPES helper writes the PTS into a packet; the PES decoder must read it back
